@@ -420,7 +420,11 @@ func runC17(c *Config, r *Report) {
 		c17R6(ic, r, decls, ic.G.Funcs[okFn])
 		c17R8(ic, r, decls, ic.G.Funcs[okFn])
 		c17R9(ic, r, decls)
+		c17R10(ic, r, append(append([]*FuncInfo{}, decls...), ic.G.reachedDecls(skipReach)...))
 	}
+	c17R11(ic, r)
+	c17R12(ic, r)
+	c17R13(ic, r)
 
 	// ---- R17.4 gating -------------------------------------------------------------------
 	// importSrc: the branch taken when the predicate is true must not reach the read of the file.
@@ -675,6 +679,13 @@ func c17R6(ic *IC, r *Report, decls []*FuncInfo, okDecl *FuncInfo) {
 			for _, ex := range exits(rs, true) {
 				if _, isRet := ex.(*ast.ReturnStmt); isRet {
 					continue // a verdict
+				}
+				if br, isBr := ex.(*ast.BranchStmt); isBr && br.Tok != token.CONTINUE {
+					// leaving the loop without a verdict: the remaining groups of the header are never
+					// evaluated, whatever the condition (go/build evaluates the +build lines of every
+					// comment group before the package clause)
+					bad = append(bad, ic.pos(ex.Pos())+" leaves the loop over the comment groups without a verdict")
+					continue
 				}
 				for _, p := range enclosingPath(rs.Body, ex) {
 					if ifs, ok := p.(*ast.IfStmt); ok && textDep(ifs.Cond) {
